@@ -322,7 +322,7 @@ class Emitter:
 
 
 F64_SUBST = {'OPREQ_add': 'true', 'OPREQ_sub': 'true', 'OPREQ_mul': 'true', 'OPREQ_div': 'true',
-             'RATEREQ_mul': 'true'}
+             'RATEREQ_mul': 'like_div_ok::<PQ>()'}
 
 
 def mark_lemmas(text, unit):
@@ -374,7 +374,7 @@ def gen_hasref(subst=F64_SUBST, extra=()):
 
 
 DEC_SUBST = {'OPREQ_add': 'ok_add(self, rhs)', 'OPREQ_sub': 'ok_sub(self, rhs)', 'OPREQ_mul': 'ok_mul(self, rhs)',
-             'OPREQ_div': 'ok_div(self, rhs)', 'RATEREQ_mul': 'true'}
+             'OPREQ_div': 'ok_div(self, rhs)', 'RATEREQ_mul': 'rate_mul_ok::<TQ, PQ>(self, rhs)'}
 
 
 def gen_hasref_decok():
@@ -385,7 +385,7 @@ def gen_hasref_decok():
     em.variant = 'dec'
     parts = [em.render(f, DEC_SUBST) for f in ('shim_m0.vrs', 'traits_core.vrs', 'hasref_specs.vrs', 'trait_hasref.vrs',
                                                  'dec_ok_specs.vrs', 'derived_specs.vrs', 'm1_dec.vrs', 'lemmas_c18_dec.vrs',
-                                                 'lemmas_c18_dec_derived.vrs')]
+                                                 'lemmas_c18_dec_derived.vrs', 'rate.vrs', 'lemmas_c18_dec_rate.vrs')]
     parts.insert(1, em.lits.decls())
     text = mark_lemmas(wrap('\n\n'.join(parts)), em.unit)
     return text, em
